@@ -184,6 +184,21 @@ pub fn judge(ctx: &mut Ctx, r: &PortableRegistry, d: &SDesc, rng: &mut rand_chac
 }
 
 pub fn run(ctx: &mut Ctx) {
+    if ctx.mine(0) {
+        // hand-written: four parameters, one member using two of them, two more unused
+        for (i, prog) in crate::prog::many_params_gallery().iter().enumerate() {
+            let out = sim::simulate(prog);
+            let mut rng = ctx.rng("c17-gallery", i as u64);
+            let d = SDesc::default();
+            ctx.begin_case(&format!("c17 four-parameter gallery {i}"));
+            let regj = reg::to_json(&out.registry);
+            let dj = serde_json::to_value(&d).unwrap();
+            let src = prog.render_source("TypeInfo");
+            let nt = judge(ctx, &out.registry, &d, &mut rng, &|extra| json!({"kind": "c17", "registry": regj, "sdesc": dj, "source": src, "transform": extra}));
+            ctx.case(reg::fingerprint(&out.registry), nt);
+            ctx.count("four_parameter_gallery_programs", 1);
+        }
+    }
     let n = ctx.tier.pick(4000u64, 80_000u64);
     for case in 0..n {
         if !ctx.mine(case) {
@@ -193,6 +208,13 @@ pub fn run(ctx: &mut Ctx) {
         let mut cfg = GenCfg::default();
         cfg.max_defs = 6;
         cfg.max_insts = 3;
+        if case % 4 == 2 {
+            // definitions with four parameters: a member can use two of them while two more stay
+            // unused (bookkeeping of the unused ones that follows the *order of use* - which is by
+            // concrete type id, i.e. by numbering - shows only there)
+            cfg.max_params = 4;
+            ctx.count("cases_with_four_parameter_definitions", 1);
+        }
         let prog = ProgGen::new(&mut rng, cfg).gen_program();
         let out = sim::simulate(&prog);
         let noncf: BTreeSet<u32> = sim::cf_source(&prog, &out).iter().filter(|(_, x)| x.is_some()).map(|(i, _)| *i).collect();
